@@ -36,8 +36,8 @@ ASSUMPTIONS = [
     "calc_step_fn_steps_vals: 1 <= ind <= n-2 (both sides non-empty); with ind=None only when every index whose reference "
     "error is within tolerance of the minimum lies in 1..n-2 (otherwise a side is empty and the statement says nothing)",
     "nzs1170: T in {0} U [1e-9, 1e4] python floats / float ndarrays / lists, Z, N, R in [0.01, 10], g = 9.81 as in the module; "
-    "exactly at a tabulated boundary the two functions may sit on different sides, so the identity is only required to table "
-    "precision (1 %) there; 1e-12 relative elsewhere",
+    "the identity S_d = C_h*T^2*Z*N*R is asserted to 1e-12 relative for every T, exactly on the tabulated boundaries too (the "
+    "statement quantifies over all T >= 0, so both functions must put a boundary on the same side)",
     "nzs1170 continuity scan: |dlnC_h/dlnT| <= 2 on every tabulated segment (steepest is the constant-displacement branch "
     "~T^-2), so neighbouring grid points a factor (1+h), h <= 2e-4, apart differ by at most 2h + the table-precision jump "
     "(largest tabulated 0.4 %) < 1 %",
@@ -696,9 +696,11 @@ def nzs1170(case, ctx):
         ch = ctx.lib(c_h, T, cls)
         ctx.check(np.ndim(ch) == 0, "c_h_factor(float) returned a non-scalar: %r" % (ch,))
         expect = LD(ch) * LD(T) * LD(T) * LD(Z) * LD(N) * LD(R)
-        rel = TABLE_PRECISION if _on_boundary(T, cls) else 1e-12
+        # the statement's identity S_d = C_h(T)*T^2*Z*N*R is universally quantified over T >= 0: it is asserted exactly at the
+        # tabulated boundaries as well (both functions must put a boundary on the same side)
+        rel = 1e-12
         if _on_boundary(T, cls):
-            ctx.amb()
+            ctx.cls("identity-on-boundary")
         ctx.close(sd, expect, rel * abs(float(expect)), "sd_nzs(T=%r, %s) vs c_h_factor*T^2*Z*N*R" % (T, cls))
         ctx.check(ch > 0 and np.isfinite(ch), "c_h_factor(%r, %s) = %r is not a positive finite number" % (T, cls, ch))
         # np.float64 scalar is a float too
@@ -717,6 +719,11 @@ def nzs1170(case, ctx):
             else:
                 # S_d -> 0 like T^2: a relative comparison is meaningless there; S_d(0) is exactly 0
                 ctx.check(ctx.lib(sd_nzs, 0.0, cls, *zrn) == 0, "sd_nzs(0) is not 0")
+            if b > 0:
+                # the identity also holds exactly ON the boundary (both functions put it on the same side)
+                exp_b = LD(ctx.lib(c_h, b, cls)) * LD(b) * LD(b) * LD(Z) * LD(N) * LD(R)
+                ctx.close(ctx.lib(sd_nzs, b, cls, *zrn), exp_b, 1e-12 * abs(float(exp_b)),
+                          "sd_nzs(T=%r, %s) vs c_h_factor*T^2*Z*N*R exactly on a tabulated boundary" % (b, cls))
             for name, f in fns_:
                 lo, at, hi = f(lo_T), f(b), f(hi_T)
                 big = max(abs(lo), abs(hi))
@@ -826,7 +833,7 @@ def nzs1170_scan(case, ctx):
         cls, 100 * rel[i], T[i], T[i + 1], sd[i], sd[i + 1]))
     onb = np.array([_on_boundary(float(t), cls) for t in T])
     expect = ch * T * T
-    ctx.close(sd, expect, np.where(onb, TABLE_PRECISION, 1e-12) * np.abs(expect), "sd_nzs vs c_h_factor*T^2 on the grid (%s)" % cls)
+    ctx.close(sd, expect, 1e-12 * np.abs(expect), "sd_nzs vs c_h_factor*T^2 on the grid (%s)" % cls)
     step = max(1, npts // 40)
     one = np.array([ctx.lib(c_h, float(t), cls) for t in T[::step]])
     ctx.equal(ch[::step], one, "c_h_factor(array) vs scalar calls on the grid")
